@@ -178,7 +178,7 @@ class Data(object):
             within each of the dates.
             """
             dates_times = [verif.util.date_to_unixtime(t) for t in dates]
-            self.times = np.array([t for t in self.times if int(t / 86400)*86400 in dates_times])
+            self.times = np.array([t for t in self.times if int(t // 86400)*86400 in dates_times])
 
         if tods is not None:
             self.times = np.array([t for t in self.times if int(t % 86400)/3600 in tods])
